@@ -1,4 +1,7 @@
 import ArgoVerif.Proofs.HTable
+import ArgoVerif.Proofs.Env
+import ArgoVerif.Proofs.AffinitySpec
+import ArgoVerif.Proofs.AffinityBounds
 /-
 Props.C20 — configuration objects are exact maps (hashtable part).
 Property theorems only; helper lemmas live in Proofs/.
@@ -74,5 +77,242 @@ example :
     (runOps (create 4) [.set 1 10, .set 5 50, .set (-3) 30, .del 1, .get 5, .get (-3), .del 9, .get 1]).2
       = [.setR false, .setR false, .setR false, .delR (some true), .getR (some 50),
          .getR (some 30), .delR (some false), .getR none] := by decide
+
+/-! ## Textual settings: numbers (atoi.c), environment (abtd_env.c), ABT_SET_AFFINITY
+(abtd_affinity_parser.c).  Specification vocabulary: Props/C20Spec.lean. -/
+
+namespace Atoi
+open ArgoVerif.Model.Atoi ArgoVerif.Gen.EnvTable
+open ArgoVerif.Props.C20Spec (expected numberOf)
+
+/-- what the specification demands, in the model's result type:
+`expected lo hi s = none` ↦ `ABT_ERR_INV_ARG`, `some (v, flag)` ↦ success -/
+def want (lo hi : Int) (s : List UInt8) : Res :=
+  match expected lo hi s with
+  | none => .err errInvArg
+  | some (v, f) => .ok v f
+
+/-- **C20 (numeric strings)**: for EVERY NUL-terminated byte string, each of
+`ABTU_atoi / ABTU_atoui32 / ABTU_atoui64 / ABTU_atosz` returns the mathematical
+decimal value of the first digit run after the optional leading blanks and the
+sign run (`C20Spec.numberOf`, computed over ℕ/ℤ, independent of the code),
+**saturated** — never wrapped — at the limits of its type (`[INT_MIN, INT_MAX]`,
+`[0, UINT32_MAX]`, `[0, UINT64_MAX]`, `[0, SIZE_MAX]`), with the overflow flag set
+exactly when the mathematical value lies outside these limits (so `"-0"` is not an
+overflow for the unsigned types), and returns `ABT_ERR_INV_ARG` iff there is no
+digit.  Covers any number of signs, leading zeros, junk suffixes and digit runs of
+any length (the 64-bit accumulator's overflow test is shown exact). -/
+theorem atoi_spec (s : List UInt8) (h0 : (0 : UInt8) ∈ s) :
+    abtuAtoi s = want cIntMin cIntMax s ∧ abtuAtoui32 s = want 0 cUint32Max s ∧
+    abtuAtoui64 s = want 0 cUint64Max s ∧ abtuAtosz s = want 0 cSizeMax s := by
+  refine ⟨?_, ?_, ?_, ?_⟩
+  · rw [Proofs.Atoi.abtuAtoi_eq s h0]; unfold want Proofs.Atoi.ofExpected; split <;> simp_all
+  · rw [Proofs.Atoi.abtuAtoui32_eq s h0]; unfold want Proofs.Atoi.ofExpected; split <;> simp_all
+  · rw [Proofs.Atoi.abtuAtoui64_eq s h0]; unfold want Proofs.Atoi.ofExpected; split <;> simp_all
+  · rw [Proofs.Atoi.abtuAtosz_eq s h0]; unfold want Proofs.Atoi.ofExpected; split <;> simp_all
+
+/-- the error case spelled out: `ABT_ERR_INV_ARG` iff the string has no digit run -/
+theorem atoi_error_iff_no_digit (s : List UInt8) (h0 : (0 : UInt8) ∈ s) :
+    abtuAtoi s = .err errInvArg ↔ numberOf s = none := by
+  rw [(atoi_spec s h0).1]; unfold want expected
+  cases numberOf s <;> simp
+
+/-- **C20 (no out-of-bounds read in atoi.c)**: `atoi_impl` never reads behind the
+terminating NUL: started anywhere (any loop state) in an object that ends right
+after its first NUL it does not fault, and in a larger object the bytes after the
+NUL do not influence the result (i.e. they are not read). -/
+theorem atoi_reads_in_bounds (pre post : List UInt8) :
+    atoiImpl (pre ++ [0]) ≠ .oob ∧ atoiImpl (pre ++ 0 :: post) = atoiImpl (pre ++ [0]) :=
+  ⟨Proofs.Atoi.loop_no_oob pre 0 false false false, Proofs.Atoi.loop_prefix_only pre post 0 false false false⟩
+
+/-- C string for the examples: the characters followed by the terminating NUL -/
+def cstr (l : List Char) : List UInt8 := l.map (fun c => UInt8.ofNat c.toNat) ++ [0]
+
+example : abtuAtoi (cstr [' ', '-', '-', '+', '-', '2', '1', '4', '7', '4', '8', '3', '6', '4', '9', 'j', 'u', 'n', 'k']) = .ok (-2147483648) true := by decide
+example : abtuAtoi (cstr ['-', '2', '1', '4', '7', '4', '8', '3', '6', '4', '8']) = .ok (-2147483648) false := by decide
+example : abtuAtoui64 (cstr ['1', '8', '4', '4', '6', '7', '4', '4', '0', '7', '3', '7', '0', '9', '5', '5', '1', '6', '1', '6']) = .ok 18446744073709551615 true := by decide
+example : abtuAtoui32 (cstr ['-', '0']) = .ok 0 false := by decide
+example : abtuAtoi (cstr ['+', ' ', '2']) = .err 53 := by decide
+example : (0 : UInt8) ∈ cstr ['1', '3', 'a', 'b', 'c'] := by decide
+end Atoi
+
+namespace Env
+open ArgoVerif.Model.Env ArgoVerif.Model.Atoi ArgoVerif.Gen.EnvTable
+open ArgoVerif.Props.C20Spec (RndChain RndPost numberOf)
+
+/-- **C20 (environment settings are clamped and rounded)**: for EVERY row of the
+table generated from abtd_env.c (`Gen.EnvTable.table`), every environment (any
+strings, set under either name) and every value of the run-dependent quantities
+(`ρ`: number of cores, page size, …): the value returned by the row's
+`load_env_*` call lies in the row's `[min, max]`, and the setting is obtained from
+it by the row's rounding wrappers, each delivering what it documents
+(`pow2`: the smallest power of two ≥ its input; `multiple m`: the smallest multiple
+of `m` ≥ its input — m = 64 for the cache-line rows), with no wrap-around in the
+C type.  The numeric side conditions (min ≤ max ≤ TYPE_MAX/2, wrappers cannot
+overflow on `[min, max]`) are decided on the table's parameters
+(`Proofs.Env.table_rows_ok`), not on strings.  The only hypothesis concerns the one
+row whose minimum is run-dependent (`MEM_STACK_PAGE_SIZE`, minimum
+`thread_stacksize * 4`): that minimum must itself be ≤ the row's maximum. -/
+theorem env_clamped (e : Entry) (he : e ∈ table) (E : Environ) (ρ : String → Int)
+    (hdyn : ∀ x, e.min = .dyn x → 0 ≤ ρ x ∧ ρ x ≤ valGet ρ e.max) :
+    valGet ρ e.min ≤ rawOf e E ρ ∧ rawOf e E ρ ≤ valGet ρ e.max ∧
+    RndChain e.rnd (rawOf e E ρ) (settingOf e E ρ) :=
+  Proofs.Env.row_clamped e (Proofs.Env.table_rows_ok e he) E ρ hdyn
+
+/-- readable corollary for rows with a single wrapper: a `pow2` row is a power of two
+≥ the clamped value (and < twice it); a `multiple 64` row is a multiple of 64 in
+`[clamped, clamped + 64)` -/
+theorem env_rounded (e : Entry) (he : e ∈ table) (E : Environ) (ρ : String → Int)
+    (hdyn : ∀ x, e.min = .dyn x → 0 ≤ ρ x ∧ ρ x ≤ valGet ρ e.max) :
+    (e.rnd = [.pow2] → (∃ k : Nat, settingOf e E ρ = 2 ^ k) ∧ rawOf e E ρ ≤ settingOf e E ρ ∧
+        settingOf e E ρ < 2 * rawOf e E ρ) ∧
+    (∀ m, e.rnd = [.multiple m] → settingOf e E ρ % (m : Int) = 0 ∧ rawOf e E ρ ≤ settingOf e E ρ ∧
+        settingOf e E ρ < rawOf e E ρ + m) := by
+  have h := (env_clamped e he E ρ hdyn).2.2
+  constructor
+  · intro hr; rw [hr] at h
+    obtain ⟨b, hb, hc⟩ := h
+    simp only [RndChain] at hc; subst hc; exact hb
+  · intro m hr; rw [hr] at h
+    obtain ⟨b, hb, hc⟩ := h
+    simp only [RndChain] at hc; subst hc; exact hb
+
+/-- **C20 (unparsable ⇒ default)**: a numeric variable that is unset, or set to a
+string without a digit run (`numberOf = none`), yields the row's default clamped to
+`[min, max]`; and for every row whose default and bounds are constants of the tree
+that is the default itself. -/
+theorem env_unparsable_default (e : Entry) (he : e ∈ table) (E : Environ) (ρ : String → Int)
+    (hk : e.kind ≠ .bool)
+    (hun : getAbtEnv E e.names = none ∨
+      ∃ s, getAbtEnv E e.names = some s ∧ (0 : UInt8) ∈ s ∧ numberOf s = none) :
+    rawOf e E ρ = clamp (valGet ρ e.min) (valGet ρ e.max) (valGet ρ e.dflt) ∧
+    ∀ d mn, e.dflt = .const d → e.min = .const mn → rawOf e E ρ = d := by
+  have h1 : rawOf e E ρ = clamp (valGet ρ e.min) (valGet ρ e.max) (valGet ρ e.dflt) := by
+    apply Proofs.Env.row_default e E ρ hk
+    rcases hun with h | ⟨s, hs, h0, hn⟩
+    · exact Or.inl h
+    · exact Or.inr ⟨s, errInvArg, hs, Proofs.Env.conv_err_of_unparsable e.kind s h0 hn⟩
+  refine ⟨h1, fun d mn hd hmn => ?_⟩
+  rw [h1]
+  exact Proofs.Env.row_default_const e (Proofs.Env.table_rows_ok e he) ρ hk d mn hd hmn
+
+/- non-vacuity: the table is not empty, and a concrete environment -/
+example : table.length = 18 := by decide
+set_option maxRecDepth 20000 in
+example : (envInit [("ABT_ENV_KEY_TABLE_SIZE", Atoi.cstr ['5']), ("ABT_THREAD_STACKSIZE", Atoi.cstr ['1', '0', '0', '0', 'x'])] 16 4096).filter
+    (fun kv => kv.1 == "KEY_TABLE_SIZE" || kv.1 == "THREAD_STACKSIZE") =
+    [("KEY_TABLE_SIZE", 8), ("THREAD_STACKSIZE", 1024)] := by decide
+end Env
+
+namespace Affinity
+open ArgoVerif.Model.Affinity ArgoVerif.Gen.EnvTable
+open ArgoVerif.Props.C20Spec (Tok Lex GList Interval expandList wrapInt32)
+
+/-- **C20 (ABT_SET_AFFINITY is accepted exactly when it matches the grammar)**: for
+EVERY NUL-terminated byte string `b`, `parse_list` succeeds iff `b` lexes
+(`C20Spec.Lex`: white space = space/TAB/CR/LF between tokens only;
+`<integer> = sign* digit+`, longest match) into a token sequence derivable from
+`<list>` of the documented BNF (`C20Spec.GList`, formalised production by production,
+left-recursive as in the header comment of abtd_affinity.c) whose values respect
+the parser's two limits.  Otherwise it returns `ABT_ERR_OTHER`; no other outcome
+exists (no fault, no overflow, no divergence).
+
+Where the accepted language is *narrower or more precise than the documented
+grammar* (all made explicit in `C20Spec`, none silently copied):
+ 1. an integer literal whose magnitude exceeds INT_MAX is rejected — hence
+    `-2147483648` (INT_MIN) cannot be written although it fits in `int`;
+ 2. `<num>` ≥ MAX_NUM_ELEMS (2^20) is rejected ("the input should be wrong");
+ 3. `<integer>` admits any number of leading signs, each `-` flipping the sign
+    (`--3` = 3, `+-+-1` = 1); the documentation only says "<integer>";
+ 4. `<positive integer>` means an integer literal with positive *value* (`--3` is fine);
+ 5. white space is space, TAB, CR, LF only (not VT/FF) and is not allowed between
+    the signs and the digits of an integer (`+ 1` is rejected);
+ 6. the string ends at the first NUL. -/
+theorem aff_accept_iff_grammar (b : List UInt8) (h0 : (0 : UInt8) ∈ b) :
+    ((∃ L rest, parseList b = .ok L rest) ↔
+      ∃ ts ast, Lex b ts ∧ GList ts ast ∧ ∀ x ∈ ast, x.ok) ∧
+    (parseList b = .fail ∨ ∃ L rest, parseList b = .ok L rest) := by
+  obtain ⟨hout, hs⟩ := Proofs.AffinitySpec.parse_sound b h0
+  refine ⟨⟨?_, ?_⟩, hout⟩
+  · rintro ⟨L, rest, h⟩
+    obtain ⟨ts, ast, hl, hg, hok, _⟩ := hs L rest h
+    exact ⟨ts, ast, hl, hg, hok⟩
+  · rintro ⟨ts, ast, hl, hg, hok⟩
+    obtain ⟨rest, h⟩ := Proofs.AffinitySpec.parse_complete b ts ast hl hg hok
+    exact ⟨_, rest, h⟩
+
+/-- **C20 (… and then expands to the documented CPU-id lists)**: whenever `b` is a
+string of the grammar with abstract syntax `ast`, the lists `parse_list` returns are
+the documented expansion (`C20Spec.expandList`: id-interval
+`id, id+stride, …, id+stride*(num-1)`; interval = the es-id-list, then the same list
+shifted by `stride*k`, k < num; omitted num/stride = 1), computed in ℤ and then
+converted to `int` (`wrapInt32`: the C code computes `id + stride*i` in `unsigned`
+and stores it in an `int`, so values outside `int` wrap — implementation-defined,
+not UB).  When every documented id fits in `int` the result is the documented
+lists themselves.  Conversely every accepted string arises this way. -/
+theorem aff_expand_spec (b : List UInt8) (h0 : (0 : UInt8) ∈ b) :
+    (∀ ts ast, Lex b ts → GList ts ast → (∀ x ∈ ast, x.ok) →
+      (∃ rest, parseList b = .ok ((expandList ast).map (List.map wrapInt32)) rest) ∧
+      ((∀ l ∈ expandList ast, ∀ v ∈ l, -2147483648 ≤ v ∧ v ≤ 2147483647) →
+        ∃ rest, parseList b = .ok (expandList ast) rest)) ∧
+    (∀ L rest, parseList b = .ok L rest →
+      ∃ ts ast, Lex b ts ∧ GList ts ast ∧ (∀ x ∈ ast, x.ok) ∧ L = (expandList ast).map (List.map wrapInt32)) := by
+  refine ⟨fun ts ast hl hg hok => ?_, (Proofs.AffinitySpec.parse_sound b h0).2⟩
+  have h := Proofs.AffinitySpec.parse_complete b ts ast hl hg hok
+  refine ⟨h, fun hr => ?_⟩
+  rw [Proofs.AffinitySpec.map_wrap_id _ hr] at h
+  exact h
+
+/-- **C20 (the affinity parser never reads behind the terminating NUL)**: with a NUL
+anywhere in the object, `parse_list` and the token-level functions never fault,
+and appending arbitrary bytes `post` behind an object that already contains a NUL
+changes nothing but the unread remainder (`ext post`) — for every fuel, every
+accumulator and every position the functions are entered at.  In particular in an
+object that ends right after its first NUL every index read is ≤ the NUL's. -/
+theorem aff_reads_in_bounds (b post : List UInt8) (h0 : (0 : UInt8) ∈ b) :
+    parseList b ≠ .oob ∧ consumeInt b ≠ .oob ∧ (∀ c, consumeSymbol c b ≠ .oob) ∧
+    consumeInt (b ++ post) = Proofs.AffinityBounds.ext post (consumeInt b) ∧
+    (∀ c, consumeSymbol c (b ++ post) = Proofs.AffinityBounds.ext post (consumeSymbol c b)) ∧
+    (∀ f l, b.length < f →
+      parseIntervals f (b ++ post) l = Proofs.AffinityBounds.ext post (parseIntervals f b l)) := by
+  refine ⟨?_, (Proofs.AffinityLex.consumeInt_outcomes b h0).2.1,
+    fun c => Proofs.AffinityLex.consumeSymbol_no_oob c b h0,
+    Proofs.AffinityBounds.int_ext b post h0, fun c => Proofs.AffinityBounds.sym_ext c b post h0,
+    fun f l hf => Proofs.AffinityBounds.list_ext f b post l h0 hf⟩
+  rcases (Proofs.AffinitySpec.parse_sound b h0).1 with h | ⟨L, rest, h⟩ <;> rw [h] <;> simp
+
+/-- **C20 (no signed overflow in consume_int)**: on EVERY byte sequence (NUL-terminated
+or not, digit runs of any length) every `int` operation of `consume_int` —
+`val * 10`, `val * 10 + digit`, `-val_sign`, `val * val_sign` — has its mathematical
+result in `[INT_MIN, INT_MAX]` (the model turns any other result into `ub`); in
+particular the accumulator never exceeds INT_MAX.  This is what the guard
+`val > (INT_MAX - digit) / 10 ⇒ return 0` established; and no parser function
+built on it can overflow either. -/
+theorem aff_no_int_overflow (b : List UInt8) :
+    consumeInt b ≠ .ub ∧ consumePint b ≠ .ub ∧ ((0 : UInt8) ∈ b → parseList b ≠ .ub) := by
+  have h := Proofs.AffinityLex.consumeInt_no_ub b
+  refine ⟨h, ?_, fun h0 => ?_⟩
+  · unfold consumePint R.bind
+    cases hc : consumeInt b with
+    | ub => exact absurd hc h
+    | ok v r => simp only; split <;> simp
+    | _ => simp
+  · rcases (Proofs.AffinitySpec.parse_sound b h0).1 with h | ⟨L, rest, h⟩ <;> rw [h] <;> simp
+
+/- non-vacuity: strings of the header comment and of the parser's own test list -/
+set_option maxRecDepth 20000 in
+example : parseList (Atoi.cstr ['{', '1', ':', '2', ':', '3', '}', ':', '3', ':', '-', '2', ',', '1']) = .ok [[1, 4], [-1, 2], [-3, 0], [1]] [] := by decide +kernel
+set_option maxRecDepth 20000 in
+example : parseList (Atoi.cstr [' ', '1', ' ', ':', ' ', ' ', '+', '2', ' ', ',', ' ', '{', ' ', '-', '1', ' ', ':', ' ', '\r', ' ', '2', '\n', ':', '2', '}', '\n']) = .ok [[1], [2], [-1, 1]] [] := by decide
+set_option maxRecDepth 20000 in
+example : parseList (Atoi.cstr ['1', ':', '0']) = .fail := by decide
+set_option maxRecDepth 20000 in
+example : parseList (Atoi.cstr ['9', '9', '9', '9', '9', '9', '9', '9', '9', '9', '9', '9', '9', '9']) = .fail := by decide
+set_option maxRecDepth 20000 in
+example : parseList (Atoi.cstr ['2', '1', '4', '7', '4', '8', '3', '6', '4', '7', ':', '2', ':', '1']) = .ok [[2147483647], [-2147483648]] [] := by decide
+example : Lex (Atoi.cstr ['7']) [.int 7] :=
+  Lex.int [] [] [55] [0] [] (by simp) (by simp) (by simp) (by decide) (by intro c r h; cases h; decide)
+    (Lex.eos [] [] (by simp))
+end Affinity
 
 end ArgoVerif.Props.C20
